@@ -154,6 +154,23 @@ func (g *registry) set(f func()) {
 }
 
 // ---------------------------------------------------------------------------------------------
+// deadlines. No verdict of this harness may depend on a short wall-clock wait: on a loaded machine a goroutine can stay
+// unscheduled for seconds. Every wait whose expiry is reported waits for the event itself with a generous deadline; on the
+// unchanged code the event arrives at once, so only a broken tree pays. To keep such a run bounded, after a few expiries
+// the remaining waits of the process use a short deadline.
+
+var expiries int32
+
+func patience() time.Duration {
+	if atomic.LoadInt32(&expiries) >= 1 {
+		return 5 * time.Second
+	}
+	return 150 * time.Second
+}
+
+func expired() { atomic.AddInt32(&expiries, 1) }
+
+// ---------------------------------------------------------------------------------------------
 // persist tracking of the directory caches (hook of C11 in cache/: scheduling points of the persist closure)
 
 type persistCtl struct {
@@ -209,7 +226,7 @@ func (p *persistCtl) setHold(h bool) {
 // settle waits until no persist closure is running. (A commit increments the counter synchronously only in
 // SyncAdd mode; in async mode the goroutine may not have reached stage 0 yet, so we also require stability.)
 func (p *persistCtl) settle() bool {
-	deadline := time.Now().Add(10 * time.Second)
+	deadline := time.Now().Add(patience())
 	stable := 0
 	for time.Now().Before(deadline) {
 		p.mu.Lock()
@@ -235,6 +252,7 @@ func (p *persistCtl) settle() bool {
 		}
 		time.Sleep(300 * time.Microsecond)
 	}
+	expired()
 	return false
 }
 
@@ -429,7 +447,7 @@ func setup(c *Case, obs *Obs) (*world, error) {
 		FSCacheType:       c.FSCache,
 		PrefetchSize:      c.PrefetchSize,
 		PrefetchAsyncSize: c.AsyncSize,
-		BlobConfig:        config.BlobConfig{ChunkSize: c.BlobCS, PrefetchChunkSize: c.BlobPCS, ValidInterval: 3600, FetchTimeoutSec: 20},
+		BlobConfig:        config.BlobConfig{ChunkSize: c.BlobCS, PrefetchChunkSize: c.BlobPCS, ValidInterval: 3600, FetchTimeoutSec: 3600},
 		DirectoryCacheConfig: config.DirectoryCacheConfig{
 			MaxLRUCacheEntry: c.LRU, MaxCacheFds: c.LRU, SyncAdd: c.SyncAdd,
 		},
@@ -783,7 +801,8 @@ func (w *world) collectPrefetch() (string, bool) {
 			if err != nil {
 				res = "err"
 			}
-		case <-time.After(20 * time.Second):
+		case <-time.After(patience()):
+			expired()
 			w.bad("Prefetch did not return")
 			return "hang", false
 		}
@@ -910,7 +929,7 @@ func (w *world) checkPrefetchTraffic(reqs [][2]int64, res string) {
 
 // awaitPrefetch waits until every running Prefetch call returned, or a request is parked at the registry gate.
 func (w *world) awaitPrefetch() (stalled bool) {
-	deadline := time.After(20 * time.Second)
+	deadline := time.After(patience())
 	for {
 		allDone := true
 		for _, ch := range w.pfRunning {
@@ -925,6 +944,7 @@ func (w *world) awaitPrefetch() (stalled bool) {
 		case <-w.reg.hitCh:
 			return true
 		case <-deadline:
+			expired()
 			w.bad("Prefetch neither returned nor reached the registry")
 			return false
 		case <-time.After(200 * time.Microsecond):
@@ -1010,14 +1030,15 @@ func (w *world) run(obs *Obs) {
 				// log or parked at the gate) before joining, because the join below is a Prefetch call and would run the
 				// body if nobody had
 				started := false
-				for t0 := time.Now(); time.Since(t0) < 3*time.Second; time.Sleep(200 * time.Microsecond) {
+				for t0, limit := time.Now(), patience(); time.Since(t0) < limit; time.Sleep(200 * time.Microsecond) {
 					if layer.VerifWaiterClosedC15(w.l) || atomic.LoadInt32(&w.reg.hits) > 0 || w.reg.logLen() > w.pfMark {
 						started = true
 						break
 					}
 				}
 				if !started {
-					w.bad("Mount did not start the prefetch of the layer (prefetch enabled, nothing happened for 3s)")
+					expired()
+					w.bad("Mount did not start the prefetch of the layer (prefetch enabled: no request, no parked request, waiter not released)")
 				}
 				// join: a second call returns when the first one is over (sync.Once)
 				ch := make(chan error, 1)
@@ -1043,16 +1064,38 @@ func (w *world) run(obs *Obs) {
 					total += len(fi.Chunks)
 				}
 				finished := false
-				for t0 := time.Now(); time.Since(t0) < 15*time.Second; time.Sleep(2 * time.Millisecond) {
-					if len(w.fsKeys()) == total {
+				joined := false
+				base, baseLog := len(w.fsKeys()), w.reg.logLen()
+				for t0, limit := time.Now(), patience(); time.Since(t0) < limit; time.Sleep(2 * time.Millisecond) {
+					n := len(w.fsKeys())
+					if n == total {
 						finished = true
+						break
+					}
+					if n > base || w.reg.logLen() > baseLog {
+						// the background fetch is evidently running: a call now joins it (sync.Once) instead of doing its
+						// work, and when it is over the chunk cache either holds everything or never will
+						jd := make(chan error, 1)
+						go func() { jd <- w.l.BackgroundFetch() }()
+						select {
+						case <-jd:
+							joined = true
+						case <-time.After(patience()):
+							expired()
+							w.bad("the BackgroundFetch spawned by Mount did not return")
+						}
+						pctl.settle()
+						finished = len(w.fsKeys()) == total
 						break
 					}
 				}
 				w.bgRan = true
 				w.bgOK = o.Fault == "" && finished
+				if !finished && !joined {
+					expired()
+				}
 				if !finished && o.Fault == "" {
-					w.bad("the background fetch Mount has to start did not bring every chunk into the chunk cache within 15s (%d of %d)", len(w.fsKeys()), total)
+					w.bad("the background fetch Mount has to start did not bring every chunk into the chunk cache (%d of %d)", len(w.fsKeys()), total)
 				}
 				if finished {
 					// let the goroutine return: a repeated call comes back when the running one is over
@@ -1060,7 +1103,8 @@ func (w *world) run(obs *Obs) {
 					go func() { done <- w.l.BackgroundFetch() }()
 					select {
 					case <-done:
-					case <-time.After(60 * time.Second):
+					case <-time.After(patience()):
+						expired()
 						w.bad("the BackgroundFetch spawned by Mount did not return")
 					}
 				}
@@ -1097,8 +1141,9 @@ func (w *world) run(obs *Obs) {
 			var err error
 			select {
 			case err = <-done:
-			case <-time.After(w.timeout + 5*time.Second):
-				w.bad("Check did not return %v after the prefetch timeout of %v", 5*time.Second, w.timeout)
+			case <-time.After(w.timeout + patience()):
+				expired()
+				w.bad("Check did not return long after the prefetch timeout of %v", w.timeout)
 				out.Res = "hang"
 			}
 			el := time.Since(t0)
@@ -1247,8 +1292,9 @@ func (w *world) run(obs *Obs) {
 							out.Res = "err"
 						}
 					}
-				case <-time.After(w.timeout + 5*time.Second):
-					w.bad("WaitForPrefetchCompletion did not return %v after its timeout of %v", 5*time.Second, w.timeout)
+				case <-time.After(w.timeout + patience()):
+					expired()
+					w.bad("WaitForPrefetchCompletion did not return long after its timeout of %v", w.timeout)
 					out.Res = "hang"
 				}
 			}
@@ -1385,7 +1431,8 @@ func (w *world) run(obs *Obs) {
 					if err != nil {
 						out.Res = "err"
 					}
-				case <-time.After(60 * time.Second):
+				case <-time.After(patience()):
+					expired()
 					w.bad("BackgroundFetch did not return")
 					out.Res = "hang"
 				}
@@ -1419,7 +1466,7 @@ func (w *world) run(obs *Obs) {
 		obs.Outs = append(obs.Outs, out)
 		dbg(t00, o.Op)
 	}
-	if !pre {
+	if !pre && w.blob != nil { // (a filesystem-level script without a mount op has no layer)
 		obs.Pre = w.httpChunks()
 	}
 }
